@@ -47,6 +47,8 @@ var c17DeepDocs = []string{
 	`{"a":[{"a":[{"a":[{"a":[{"a":1,"b":2}],"b":{"a":{"a":3}}}],"b":[{"a":{"b":{"a":4}}}]}]},{"b":{"a":{"b":{"a":{"b":5}}}}}]}`,
 	`{"a":[{"b":{"a":{"b":{"a":1}},"b":{"b":{"b":2}}}},{"b":{"a":{"b":null}}},{"a":{"b":{"a":{"b":[6]}}}}],"b":{"a":{"b":{"a":{"b":7}}}}}`,
 	`[{"a":{"a":{"a":{"a":{"a":1}}}}},[{"b":{"b":{"b":{"b":2}}}}],{"a":[{"a":[{"a":[{"a":3}]}]}]}]`,
+	`{"a":[{"b":[{"c":1,"d":[{"e":[1,2]},{"e":[3]}]},{"c":2,"d":[{"e":[4]}]}]},{"b":[{"c":3,"d":[{"e":[5,6]},{"e":[7]}]},{"c":4,"d":[]},{"c":5,"d":[{"e":[8]}]}]}]}`,
+	`{"a":[[{"b":[[{"c":1,"d":[[{"e":[[1],[2]]}],[{"e":[[3]]}]]}],[{"c":2,"d":[[{"e":[[4]]}]]}]]}],[{"b":[[{"c":3,"d":[[{"e":[[5]]}]]}]]}]]}`,
 }
 
 func c17Chains(maxLen int) []string {
@@ -211,6 +213,38 @@ func c17Instances(thorough bool) []c17Inst {
 					if (ch[cut] == '.' || ch[cut] == '[') && !strings.Contains(ch[:cut], "*") {
 						out = append(out, c17Inst{Deep: true, Schema: "proj-chain-cut", Kind: "eq", LHS: x + t + ch, RHS: x + t + ch[:cut] + " | [*]" + ch[cut:]})
 					}
+				}
+			}
+		}
+	}
+	// wide and long expressions: a multi-select of n members, a chain of n pipes, n pairs of parentheses - an identity
+	// holds for every n, so a limit that counts something other than what it means to bound shows as a failed instance
+	for _, n := range []int{8, 63, 64, 65, 126, 127, 128, 129, 130, 255, 256, 257, 300} {
+		for _, e := range []string{"a[*]", "a[?@]", "a[]", "a.*", "a[1:]", "a", "a[*].a", "@", "`1`", "a[*].a[]", "[a[*]]"} {
+			members := make([]string, n)
+			parts := make([]string, n)
+			for k := range members {
+				members[k] = e
+				parts[k] = "[" + e + "]"
+			}
+			out = append(out, c17Inst{Deep: true, Schema: "list-concat-wide", Kind: "concat", LHS: "[" + strings.Join(members, ", ") + "]", Parts: parts, Guard: "@"})
+			out = append(out, c17Inst{Deep: true, Schema: "pipe-chain-long", Kind: "eq", LHS: e + strings.Repeat(" | [*]", n), RHS: e + " | [*]"})
+			out = append(out, c17Inst{Deep: true, Schema: "paren-closes-deep", Kind: "eq", LHS: strings.Repeat("(", n) + e + strings.Repeat(")", n) + ".a", RHS: "(" + e + ") | a"})
+			out = append(out, c17Inst{Deep: true, Schema: "or-chain-long", Kind: "eq", LHS: strings.Repeat("missing[*] || ", n) + e, RHS: e})
+		}
+	}
+	// a projection whose right-hand side holds further projections of the same kind (inside a multi-select, a filter or
+	// an argument), after an earlier projection of that kind has already run: results collected in a buffer that the
+	// nested evaluation shares would be overwritten
+	// (a filter projection as the outer one is left out: a later filter in its right-hand side applies to the whole projection, see the corrections)
+	for _, p1 := range []string{"[]", "[*]", "[0:]"} {
+		for _, p2 := range []string{"[]", "[*]", "[?@]", "[0:]"} {
+			for _, p3 := range []string{"[]", "[*]", "[?@]"} {
+				for _, e := range []string{".{k: c, l: d" + p3 + ".e}", ".[d" + p3 + ".e, c]", ".[d" + p3 + ".e]", ".{l: d" + p3 + ".e" + p3 + "}", "[?d" + p3 + ".e].c", ".length(d" + p3 + ".e)", ".{k: c, l: d" + p3 + ".e" + p3 + ".{v: @}}"} {
+					x := "a" + p1 + ".b" + p2
+					out = append(out, c17Inst{Deep: true, Schema: "nested-projections", Kind: "eq", LHS: x + e, RHS: "a" + p1 + " | [*].b" + p2 + e})
+					out = append(out, c17Inst{Deep: true, Schema: "nested-projections-after-another", Kind: "eq", LHS: "[a" + p1 + ".b, " + x + e + "][1]", RHS: "a" + p1 + " | [*].b" + p2 + e})
+					out = append(out, c17Inst{Deep: true, Schema: "nested-projections-map", Kind: "prune", LHS: "(" + x + ")[*]" + e, RHS: "map(&@" + e + ", " + x + ")"})
 				}
 			}
 		}
